@@ -61,6 +61,13 @@ Theorem no_leak : forall (vkind : nat -> kind) (ops : list op) (s : st),
 Proof. exact no_leak_thm. Qed.
 Print Assumptions no_leak.
 
+(* Not proved (DESIGN.md lists it as a corollary): accounted_memory_zero,
+     forall vkind ops s d, run fixed vkind ops init = Some s -> alive s d = true -> tagof s d = TO KDev ->
+       obytes s d = sum of osize s b over the live non-pool buffers b with odev s b = Some d
+   (hence 0 once no buffer of d is left).  Missing: an invariant clause relating obytes to the sizes of the live
+   buffers.  bytesAllocated is part of the model, of the reference semantics and of the observation compared
+   with the library after every operation of every history. *)
+
 (* ---------------------------------------------------------------- the code before the fixes *)
 (* static types of the variables used by the drivers: D0 D1 M0..M4 P0..P2 K0 K1 S0..S2 T0 T1 *)
 Definition vk (v : nat) : kind :=
